@@ -512,7 +512,7 @@ func genBus(r *hx.Rand, dist map[string]int) BusInput {
 		in.Token = ""
 		dist["cfg:token=none"]++
 	} else {
-		in.Token = r.PickStr([]string{"tok-A1", "bnqd5i9o1rqg00a6v2m0", "t", "sensor 7", "ssh"})
+		in.Token = r.PickStr([]string{"9m4e2mr0ui3e8a215n4g", "bnqd5i9o1rqg00a6v2m0", "c0nd8ka4kfuq1r8g3p20", "dause038di12cb9merog"})
 		dist["cfg:token=set"]++
 	}
 	ne := r.Range(1, 8)
@@ -544,7 +544,7 @@ func corpus() []BusInput {
 	}
 	defs := []Def{{"c1", "ok"}, {"c2", "ok"}, {"c3", "ok"}}
 	return []BusInput{
-		{Defs: defs, Token: "tok-A1", Events: evs, Alone: "c2", Filters: []Flt{
+		{Defs: defs, Token: "9m4e2mr0ui3e8a215n4g", Events: evs, Alone: "c2", Filters: []Flt{
 			{Channels: []string{"c1"}},
 			{Channels: []string{"c2", "c3"}, HasCats: true, Cats: []*Re{sshOnly}},
 			{Channels: []string{"c2"}, HasSvcs: true, Svcs: []*Re{lit("ssh"), lit("telnet")}, HasCats: true, Cats: []*Re{}},
@@ -554,11 +554,11 @@ func corpus() []BusInput {
 			{Channels: []string{"c1", "c1"}, HasCats: true, Cats: []*Re{alt(lit("ssh"), lit("telnet"))}},
 			{Channels: []string{"c3", "c1"}, HasSvcs: true, Svcs: []*Re{star(anyR)}, HasCats: true, Cats: []*Re{epsR}},
 		}},
-		{Defs: []Def{{"c1", "unknown-type"}, {"c2", "no-type"}, {"c3", "ok"}}, Token: "t", Events: evs, Alone: "c3", Filters: []Flt{
+		{Defs: []Def{{"c1", "unknown-type"}, {"c2", "no-type"}, {"c3", "ok"}}, Token: "c0nd8ka4kfuq1r8g3p20", Events: evs, Alone: "c3", Filters: []Flt{
 			{Channels: []string{"c1", "c2", "c3"}, HasCats: true, Cats: []*Re{cat(lit("net"), eolR), cat(bolR, lit("heart"))}},
 			{Channels: []string{}},
 		}},
-		{Defs: defs, Token: "tok-A1", Events: evs, Filters: nil},
+		{Defs: defs, Token: "9m4e2mr0ui3e8a215n4g", Events: evs, Filters: nil},
 	}
 }
 
